@@ -856,8 +856,80 @@ def run_site_hmm(spec, acc):
     acc.sample({"site_hmm": True, **spec}, "sitehmm")
 
 
+BPROBS3 = [(0.5, 0.25, 0.25), (0.5, 0.1, 0.4), (0.5, 0.4, 0.1), (0.5, 0.25, 0.25)]
+
+
+def run_site_hmm3(spec, acc):
+    """three named rate classes that differ by a per-class kappa, joined by the site HMM (two patches: the first class / the
+    other two).  One function is evaluated, then only the class probabilities are changed, again and again: every lnL against
+    the forward algorithm over the two patches and against a fresh function given the same values before its first
+    evaluation.  The patch probabilities stay equal (see run_site_hmm on why)."""
+    from cogent3 import get_model, make_aligned_seqs, make_tree
+
+    ncol, sw = spec["ncol"], spec["switch"]
+    names = ["a", "b", "c", "d"]
+    seqs = {n: "".join("ACGT"[(i * 3 + j * (1 + i % 3) + (j // 7) * i) % 4] for j in range(ncol)) for i, n in enumerate(names)}
+    tree = "((a:0.3,b:0.2):0.1,c:0.4,d:0.25)"
+    bins = ["low", "mid", "high"]
+    kappas = {"low": 0.5, "mid": 2.0, "high": 8.0}
+    mp = {"A": 0.3, "C": 0.2, "G": 0.25, "T": 0.25}
+    case = {"part": "sitehmm3", **spec}
+    acc.case(case, nontrivial=True)
+
+    def build(bp):
+        lf = get_model("HKY85").make_likelihood_function(make_tree(tree), bins=bins, sites_independent=False)
+        lf.set_motif_probs(mp)
+        for b, k in kappas.items():
+            lf.set_param_rule("kappa", bin=b, value=k, is_constant=True)
+        lf.set_param_rule("bin_switch", value=sw, is_constant=True)
+        lf.set_param_rule("bprobs", init=numpy.array(bp))
+        lf.set_alignment(aln)
+        return lf
+
+    try:
+        aln = make_aligned_seqs(seqs, moltype="dna")
+        L = []
+        for b in bins:
+            one = get_model("HKY85").make_likelihood_function(make_tree(tree))
+            one.set_motif_probs(mp)
+            one.set_alignment(aln)
+            one.set_param_rule("kappa", value=kappas[b], is_constant=True)
+            L.append(numpy.asarray(one.get_full_length_likelihoods(), float))
+        L = numpy.array(L)
+        lf = build(BPROBS3[0])
+        for step, bp in enumerate(BPROBS3):
+            if step:
+                lf.set_param_rule("bprobs", init=numpy.array(bp))
+            got = float(lf.lnL)
+            fresh = float(build(bp).lnL)
+            pp = numpy.array([bp[0], bp[1] + bp[2]])
+            PL = numpy.array([L[0], (bp[1] * L[1] + bp[2] * L[2]) / pp[1]])
+            T = (1 - sw) * numpy.eye(2) + sw * numpy.outer(numpy.ones(2), pp)
+            alpha, want = pp * PL[:, 0], 0.0
+            for i in range(1, ncol + 1):
+                tot = alpha.sum()
+                want += math.log(tot)
+                alpha = alpha / tot
+                if i < ncol:
+                    alpha = (alpha @ T) * PL[:, i]
+            acc.outcome(("sitehmm3", step, round(want, 3)))
+            acc.count("columns_compared", ncol)
+            if not (math.isfinite(fresh) and abs(fresh - want) <= 1e-9 * abs(want)):
+                acc.fail("site-HMM lnL of three classes with their own kappa differs from the forward algorithm over the two patches [fresh function]",
+                         dict(case, bprobs=list(bp)), {"got": fresh, "want": want})
+            elif not (math.isfinite(got) and abs(got - want) <= 1e-9 * abs(want)):
+                acc.fail("site-HMM lnL after only the class probabilities were changed differs from a fresh function with the same values",
+                         dict(case, bprobs=list(bp), step=step), {"got": got, "fresh": fresh, "want": want})
+    except Exception as e:  # noqa: BLE001
+        acc.fail(f"site-HMM likelihood function with three classes raised {type(e).__name__}", case, {"error": str(e)[:300]})
+        return
+    acc.sample({"site_hmm_three_classes": True, **spec, "bprobs": [list(b) for b in BPROBS3]}, "sitehmm3")
+
+
 def shards(tier, seed):
     heavy, out = [], []
+    for sw in (1.0, 0.3):
+        out.append({"part": "sitehmm3", "family": "nuc", "ncol": 40, "switch": sw})
     for ntips, length in ((4, 0.3), (80, 3.0)):
         for sw in (1.0, 0.3):
             out.append({"part": "sitehmm", "family": "nuc", "ntips": ntips, "ncol": 60, "length": length, "switch": sw})
@@ -921,6 +993,9 @@ def shard_configs(spec, tier):
 
 
 def run_shard(spec, acc):
+    if spec["part"] == "sitehmm3":
+        run_site_hmm3({k: spec[k] for k in ("ncol", "switch")}, acc)
+        return
     if spec["part"] == "sitehmm":
         run_site_hmm({k: spec[k] for k in ("ntips", "ncol", "length", "switch")}, acc)
         return
@@ -939,6 +1014,9 @@ def replay(case):
     from vf.kernel.runner import Acc
 
     acc = Acc()
+    if case.get("part") == "sitehmm3":
+        run_site_hmm3({k: case[k] for k in ("ncol", "switch")}, acc)
+        return [(sig, rec["cases"][0]["detail"]) for sig, rec in acc.failures.items()]
     if case.get("part") == "sitehmm":
         run_site_hmm({k: case[k] for k in ("ntips", "ncol", "length", "switch")}, acc)
         return [(sig, rec["cases"][0]["detail"]) for sig, rec in acc.failures.items()]
